@@ -132,6 +132,7 @@ def correspond(ctx):
         if not ok:
             ctx.mismatch("create_ising_circuit gate list vs CircuitLib", {"L": L, "periodic": periodic}, (rx, rzz, others), (mf, mb))
     hamiltonian_correspondence(ctx)
+    bose_correspondence(ctx)
 
 
 def captured_terms(build):
@@ -203,6 +204,50 @@ def hamiltonian_correspondence(ctx):
         g = [(t[0], [tuple(x) for x in t[1]]) for t in got]
         if g != w:
             ctx.mismatch("terms handed to from_pauli_sum vs HamTerms", c, [(str(a), b) for a, b in g][:6], [(str(a), b) for a, b in w][:6], key="terms")
+
+
+def bose_correspondence(ctx):
+    """MPO.bose_hubbard: every tensor decoded into a transition table over named local operators vs Model/ChainFSM.out
+    (Start = 0, channel k = k+1, End = 3).  The theorem C07_chain_automaton_denotes_terms then covers every length."""
+    from mqt.yaqs.core.data_structures.networks import MPO
+
+    hdr = ("From Coq Require Import List. Import ListNotations.\nFrom Yaqs Require Import Model.ChainFSM.\n"
+           "Definition sid (s : st) : nat := match s with Start => 0 | Chan k => S k | End => 3 end%nat.\n"
+           "Definition tab (s : st) := map (fun t => (fst t, sid (snd t))) (out nat 0%nat 1%nat [(2,3);(4,5)]%nat s).")
+    want = common.coq_eval(hdr, ["(tab Start, tab (Chan 0), tab (Chan 1), tab End)"], "c07b")[0]
+    table = {}  # (row state, col state) -> symbol id
+    for r, lst in enumerate(want):
+        for sym_, c in lst:
+            table[(r, c)] = sym_
+    for L in range(1, 8):
+        for d in (2, 3):
+            om, jj, u = 0.7 + 0.1 * L, 0.3 + 0.05 * d, 0.45
+            a = np.diag(np.sqrt(np.arange(1, d)), 1).astype(complex)
+            nn = a.conj().T @ a
+            ident = np.eye(d, dtype=complex)
+            syms = {0: ident, 1: 0.5 * u * (nn @ (nn - ident)) + om * nn, 2: a.conj().T, 3: -jj * a, 4: a, 5: -jj * a.conj().T}
+            mpo = MPO.bose_hubbard(L, d, om, jj, u)
+            ctx.case(nontrivial_key=("bose-fsm", L, d) if L >= 3 else None, validated=True)
+            ctx.count("bose_automata")
+            bad = None
+            for i, t in enumerate(mpo.tensors):
+                rows, cols = t.shape[2], t.shape[3]
+                for r in range(rows):
+                    for c in range(cols):
+                        blk = t[:, :, r, c]
+                        # the first tensor is row Start, the last one column End; a single site is the (Start, End) entry
+                        rr = 0 if i == 0 else r
+                        cc = 3 if i == L - 1 else c
+                        exp_sym = table.get((rr, cc))
+                        if (rows != (1 if i == 0 else 4)) or (cols != (1 if i == L - 1 else 4)):
+                            bad = f"tensor {i} has bond dimensions {rows}x{cols}"
+                        elif exp_sym is None:
+                            if np.max(np.abs(blk)) > 1e-14:
+                                bad = f"tensor {i}: unexpected operator at transition {rr}->{cc}"
+                        elif not np.allclose(blk, syms[exp_sym], atol=1e-14):
+                            bad = f"tensor {i}: transition {rr}->{cc} does not carry symbol {exp_sym}"
+            if bad:
+                ctx.mismatch("bose_hubbard tensors vs ChainFSM.out", {"L": L, "local_dim": d}, bad, "transition table of the model", key="bose-fsm")
 
 
 # ---- dense definitions ------------------------------------------------------------------------------------------------
